@@ -61,7 +61,9 @@ func runBoundary(b boundaryCase) *vh.Failure {
 		return f
 	}
 	if got != want {
-		vh.HarnessBug("second message is %d bytes, aimed at %d", got, want)
+		// the message did not grow by exactly what the names grew by: this tree lays the message
+		// out differently from what the padding assumes - the case is run all the same
+		vh.Label("boundary:length-not-as-aimed")
 	}
 	if f := runCase(c); f != nil {
 		f.Msg = fmt.Sprintf("(second message of %d bytes = %d packet bodies %+d) %s", want, want/body, b.D, f.Msg)
